@@ -80,9 +80,19 @@ def run_lemmas(ctx, lemmas, procs=16):
                 bases.append(base)
             for o in bases:
                 if l.split_depth:
-                    for pref in e2run.probe_prefixes(prog, l.entry, o, l.split_depth, ls[0].intr):
+                    if l.split_depth == "auto":
+                        prefs = [((), False)]
+                        tp = time.time()
+                        for d in range(1, 16):
+                            prefs = e2run.probe_prefixes(prog, l.entry, o, d, ls[0].intr)
+                            if len(prefs) >= 400 or time.time() - tp > 6:
+                                break
+                    else:
+                        prefs = e2run.probe_prefixes(prog, l.entry, o, l.split_depth, ls[0].intr)
+                    for pref, exact in prefs:
                         o2 = dict(o)
                         o2["choice_prefix"] = list(pref)
+                        o2["choice_exact"] = exact
                         jobs.append((l.entry, o2))
                         owner.append(l)
                 else:
